@@ -1081,31 +1081,58 @@ Section RwList.
     end.
 End RwList.
 
-(* visit_Assign of `x = e` *)
+(* visit_Assign of `x = e`, first half: the environment is updated BEFORE the value is
+   visited; a tuple value is visited here already, in place *)
+Definition assign_env (st : rstate) (x : string) (e : exp) : res (rstate * exp) :=
+  match e with
+  | EConst _ | EConstNode _ => Ok (set_constant st x e, e)
+  | EName y =>
+      if in_env st y then
+        match assoc (tys st) y with
+        | Some t => Ok (set_type st x t, e)
+        | None => Raise                                   (* KeyError *)
+        end
+      else Ok (set_type st x TyRaw, e)
+  | ETuple _ | EList _ =>
+      r1 <- rw_exp st e ;;
+      if Bool.eqb (name_in x e) (name_in x r1) then Ok (set_constant st x r1, r1) else Unmod
+  | _ => Ok (set_type st x TyRaw, e)
+  end.
+
+Definition is_seq_lit (e : exp) : bool := match e with ETuple _ | EList _ => true | _ => false end.
+
 Definition rw_assign (st : rstate) (x : string) (e : exp) : res (list stmt * rstate) :=
   let was_known := in_env st x in
-  (* the environment is updated first; a tuple value is visited here already, in place *)
-  ' (st1, e1) <-
-     match e with
-     | EConst _ | EConstNode _ => Ok (set_constant st x e, e)
-     | EName y =>
-         if in_env st y then
-           match assoc (tys st) y with
-           | Some t => Ok (set_type st x t, e)
-           | None => Raise                                   (* KeyError *)
-           end
-         else Ok (set_type st x TyRaw, e)
-     | ETuple _ | EList _ =>
-         r1 <- rw_exp st e ;;
-         if Bool.eqb (name_in x e) (name_in x r1) then Ok (set_constant st x r1, r1) else Unmod
-     | _ => Ok (set_type st x TyRaw, e)
-     end ;;
+  ' (st1, e1) <- assign_env st x e ;;
   v <- rw_exp st1 e1 ;;
   (* second visit of a tuple value: must change nothing, else the in-place mutation is visible *)
-  if (match e with ETuple _ | EList _ => negb (exp_eqb v e1) | _ => false end) then Unmod else
+  if is_seq_lit e && negb (exp_eqb v e1) then Unmod else
   if name_in x e1 && was_known && negb (is_constant e) then
     Ok ([SAssign (TName (String.append "__" x)) v; SAssign (TName x) (EName (String.append "__" x))], st1)
   else Ok ([SAssign (TName x) v], st1).
+
+(* the loop value NameValReplacer substitutes: a Constant or Subscript element itself, anything
+   else wrapped in a Constant *)
+Definition loop_val (i : exp) : exp :=
+  match i with EConst _ | EConstNode _ | ESubscript _ _ => i | _ => EConstNode i end.
+
+Section Rolls.
+  Variable rw : rstate -> stmt -> res (list stmt * rstate).
+  Fixpoint rolls_with (x : string) (b : list stmt) (l : list exp) (st : rstate) : res (list stmt * rstate) :=
+    match l with
+    | [] => Ok ([], st)
+    | i :: r =>
+        let v := loop_val i in
+        let st1 := set_constant st x v in
+        ' (l0, st2) <- rw st1 (SAssign (TName x) v) ;;
+        b' <- mapM (subst_stmt false x v) b ;;
+        ' (l1, st3) <- rw_list_with rw st2 b' ;;
+        ' (l2, st4) <- rolls_with x b r st3 ;;
+        Ok (l0 ++ l1 ++ l2, st4)
+    end.
+End Rolls.
+
+Definition iftarg_name (u : N) : string := String.append iftarg_prefix (hex_of_N u).
 
 Fixpoint rw_stmt (fuel : nat) (st : rstate) (s : stmt) {struct fuel} : res (list stmt * rstate) :=
   match fuel with
@@ -1121,7 +1148,7 @@ Fixpoint rw_stmt (fuel : nat) (st : rstate) (s : stmt) {struct fuel} : res (list
           ' (b', st1) <- rw_list_with (rw_stmt n) st b ;;
           ' (o', st2) <- rw_list_with (rw_stmt n) st1 o ;;
           let u := (uq st2 + 1)%N in
-          let test := String.append iftarg_prefix (hex_of_N u) in
+          let test := iftarg_name u in
           let st3 := mkst (tys st2) (cns st2) u in
           c' <- rw_exp st3 c ;;
           bl <- mapM (wrap_body st3 test) b' ;;
@@ -1129,18 +1156,7 @@ Fixpoint rw_stmt (fuel : nat) (st : rstate) (s : stmt) {struct fuel} : res (list
           Ok (SAssign (TName test) c' :: bl ++ ol, st3)
       | SFor x it b =>
           elems <- rw_iter st it ;;
-          (fix rolls (l : list exp) (st : rstate) : res (list stmt * rstate) :=
-             match l with
-             | [] => Ok ([], st)
-             | i :: r =>
-                 let v := match i with EConst _ | EConstNode _ | ESubscript _ _ => i | _ => EConstNode i end in
-                 let st1 := set_constant st x v in
-                 ' (l0, st2) <- rw_stmt n st1 (SAssign (TName x) v) ;;
-                 b' <- mapM (subst_stmt false x v) b ;;
-                 ' (l1, st3) <- rw_list_with (rw_stmt n) st2 b' ;;
-                 ' (l2, st4) <- rolls r st3 ;;
-                 Ok (l0 ++ l1 ++ l2, st4)
-             end) elems st
+          rolls_with (rw_stmt n) x b elems st
       | SReturn e => e' <- rw_exp st e ;; Ok ([SReturn e'], st)
       | SExpr None => Ok ([s], st)
       | SExpr (Some e) =>
